@@ -206,6 +206,12 @@ class Memory:
             raise Unsupported("int view of %r" % (v,))
         if k == 'fp':
             if isinstance(v, int): return s.dom.from_bits(v) if ty.bits == 64 else s.dom.const(struct.unpack('<f', struct.pack('<I', v))[0])
+            if _isz3(v) and z3.is_bv(v) and s.dom.name == 'REAL' and z3.is_const(v) and v.decl().name().startswith('uninit!'):
+                # never-written junk read as a double in the REAL domain: an arbitrary (but stable) real number
+                jr = s.__dict__.setdefault('_junk_reals', {})
+                k_ = v.decl().name()
+                if k_ not in jr: jr[k_] = s.dom.fresh('junk!' + k_)
+                return jr[k_]
             if _isz3(v) and z3.is_bv(v) and s.dom.name != 'UF': return s.dom.from_bits(v)
             if v is UNINIT: s.nfresh += 1; return s.dom.fresh("uninit!%d" % s.nfresh)
             return v
